@@ -21,7 +21,7 @@ DESIGN_REF = "DESIGN.md section 7, C10"
 RULE = ("data matrices n x d with n,d in 2..40 on both sides of n = d (incl. n = d, d+-1), geometric spectra separated by >=5%, centred and uncentred, vector- and object-backed; histories of "
         "1-10 n_active_components changes (int / float) and trims; non-trivial = model has >=2 components and the history changes the active count at least once; "
         "distinct = (backing, n vs d relation, centred, history event kinds)")
-ASSUMPTIONS = ["singular values of the generated data span at most three orders of magnitude (conditioning, not correctness, limits orthonormality beyond that)",
+ASSUMPTIONS = ["singular values of the generated data span at most four orders of magnitude (conditioning, not correctness, limits orthonormality beyond that)",
                "eigenvalues follow menpo's documented convention: second moments about the model mean divided by n-1 (also for uncentred models)",
                "variance fractions are drawn away (>=1e-6) from the cumulative ratios, so the expected component count is unambiguous"]
 DECIDING_TAPS = ["PCA.invariant", "svd_reference"]
@@ -167,8 +167,14 @@ def spectrum_data(rng, n, d, centre):
     """n x d data with a geometric, >=5% separated spectrum."""
     r = min(n - (1 if centre else 0), d)
     r = max(r, 1)
-    lo = max(0.45, 1e-3 ** (1.0 / max(1, r - 1)))      # bounded dynamic range: smallest/largest singular value >= 1e-3
-    s = 10.0 * np.cumprod(np.concatenate([[1.0], rng.uniform(lo, max(lo + 0.01, 0.93), r - 1)]))
+    # geometric spectrum whose smallest/largest singular value is R (log-uniform in [1e-4, 0.3]; eigenvalue ratio >= 1e-8,
+    # well above menpo's documented 1e-10 cut), adjacent values separated by >= 7 %
+    R = 10.0 ** rng.uniform(-4.0, -0.5)
+    q = R ** (1.0 / max(1, r - 1))
+    if q > 0.93:
+        q = 0.93
+    q = max(q, 1e-4 ** (1.0 / max(1, r - 1)))
+    s = 10.0 * q ** np.arange(r) * np.concatenate([[1.0], rng.uniform(0.985, 1.015, r - 1)])
     u, _ = np.linalg.qr(rng.normal(size=(n, n)))
     v, _ = np.linalg.qr(rng.normal(size=(d, d)))
     if centre:
